@@ -195,6 +195,7 @@ def oracle(c, o):
 SPEC = {
     "prop_file": "Properties/C09.v",
     "gen": gen,
+    "adaptive_error": True,
     "oracle": oracle,
     "corpus_filter": lambda c: False,
     "stages": [("F", lambda c, o, rng: solcore.stageF(c, o, rng) if c.get("role") == "units" else None, P.stageF_v, 2, 24)],
